@@ -91,6 +91,16 @@ func Corpus() []RunDesc {
 			Attacks: MutualAccusers(5, 4, "sh-garbage", "sh-wrong-value", true),
 			Orders: []MemberOrder{{Phase: 8, Member: 1, Senders: []int{2, 3, 5, 4}}, {Phase: 8, Member: 2, Senders: []int{4, 1, 5, 3}},
 				{Phase: 8, Member: 3, Senders: []int{4, 1, 2, 5}}}},
+		// C01-g (phase-8/9 form of C01-f): 5 sends 4 an undecryptable share (4 quiet in phase 4); 4's phase-7
+		// points fit the shares of honest 1 and 2 only, so honest 3 disqualifies 4 on its own in phase 8,
+		// accuses it and no longer listens to it; 4 accuses 5 with the key it really used: 1 and 2 resolve
+		// it (4 and 5 out), 3 never hears it and keeps 5; they disqualify each other in phase 11
+		{ID: "corpus-C01g-locally-disqualified-accuser-phase8", N: 5, T: 2, Corrupt: []int{4, 5}, Ops: distinctOps(5), OrderSeed: 53, Shuffle: true,
+			Attacks: []Attack{{Name: "sh-garbage", Phase: 3, By: 5, Target: 4}, {Name: "acc-quiet", Phase: 4, By: 4, Target: 5},
+				{Name: "points-poly-offset", Phase: 7, By: 4, Val: 1, Set: []int{1, 2}}, {Name: "acc-quiet", Phase: 8, By: 5, Target: 4},
+				{Name: "acc-false", Phase: 8, By: 4, Target: 5}},
+			Orders: []MemberOrder{{Phase: 8, Member: 1, Senders: []int{2, 3, 4, 5}}, {Phase: 8, Member: 2, Senders: []int{5, 4, 1, 3}},
+				{Phase: 8, Member: 3, Senders: []int{1, 2, 4, 5}}}},
 		// the same race one round earlier (phase 4 -> 5): both complain at once, per-member orders differ
 		{ID: "corpus-accusers-interleaved-phase4", N: 5, T: 2, Corrupt: []int{4, 5}, Ops: distinctOps(5), OrderSeed: 52, Shuffle: true,
 			Attacks: MutualAccusers(5, 4, "sh-garbage", "sh-wrong-key", false),
